@@ -97,6 +97,10 @@ def r12_3(ctx: Ctx):
         if any(s in o.subject for s in ("Population.topk",)):
             o.rule = "R12.3"
             obs.append(o)
+    # a direction kept by an engine object must be the problem's own (R13.8): otherwise `better` means `worse` for one direction
+    for o in c13.r13_8(ctx):
+        o.rule = "R12.3"
+        obs.append(o)
     # default number of elites
     mod = ctx.prog.modules["pyhms.demes.single_pop_eas.sea"]
     st = mod.globals_.get("DEFAULT_K_ELITES")
@@ -203,6 +207,40 @@ def r12_4(ctx: Ctx):
         pn = ts.params()[1]
         ok = re.fullmatch(rf"(len\({pn}(\.copy\(\))?\.(fitnesses|genomes)\)|{pn}(\.copy\(\))?\.size)", first) is not None
     obs.append(ctx.ob("R12.4", ts, calls[0] if calls else ts.node, status=OK if ok else VIOLATION, detail="one tournament per individual of the input" if ok else "TournamentSelection does not hold one tournament per input individual: the offspring population changes size", construct="tournament-shape"))
+    # MultiwinnerRepeatedSelection: enough elections of k winners each to reach the input's size, surplus trimmed
+    try:
+        mw = ctx.prog.own_method("MultiwinnerRepeatedSelection", "__call__")
+    except Exception:
+        mw = None
+    if mw is not None:
+        import copy as _copy
+
+        from ..core import _Subst
+
+        pn, sn = mw.params()[1], mw.self_name()
+        mdefs = local_defs(mw)
+        loops = [n for n in body_walk(mw.node) if isinstance(n, ast.For) and isinstance(n.iter, ast.Call) and norm(n.iter.func) == "range" and len(n.iter.args) == 1 and any(isinstance(c, ast.Call) and isinstance(c.func, ast.Attribute) and c.func.attr == "merge" for c in ast.walk(n))]
+        if len(loops) != 1:
+            obs.append(ctx.ob("R12.4", mw, mw.node, status=INCONCLUSIVE, detail="MultiwinnerRepeatedSelection: the loop of elections was not found", construct="mw-elections"))
+        else:
+            N = _Subst(mdefs, 4).visit(_copy.deepcopy(loops[0].iter.args[0]))
+            t = canon(N)
+            size = rf"(?:{pn}\.size|len\({pn}\)|len\({pn}\.fitnesses\)|len\({pn}\.genomes\))"
+            k = rf"{sn}\.k"
+            import re
+
+            enough = [rf"{size}//{k}\+1", rf"1\+{size}//{k}", rf"(?:math\.ceil|np\.ceil|int\(math\.ceil|int\(np\.ceil)\({size}/{k}\)\)?", rf"-\(-{size}//{k}\)", rf"\({size}\+{k}-1\)//{k}", rf"{size}"]
+            short = [rf"{size}//{k}", rf"(?:max\(1,)?(?:round|int)\({size}/{k}\)\)?", rf"max\(1,{size}//{k}\)", rf"(?:math\.floor|np\.floor|int\(np\.floor)\({size}/{k}\)\)?"]
+            if any(re.fullmatch(p_, t) for p_ in enough):
+                st, why = OK, "elections x k winners >= the input's size"
+            elif any(re.fullmatch(p_, t) for p_ in short):
+                st, why = VIOLATION, f"`{norm(N)}` elections of k winners yield fewer individuals than the input has whenever the size is not a multiple of k (the quotient is rounded down) and nothing refills the population: the generation is smaller than the configured population size"
+            else:
+                st, why = INCONCLUSIVE, f"cannot tell whether `{norm(N)}` elections of k winners reach the input's size"
+            obs.append(ctx.ob("R12.4", mw, loops[0].iter, status=st, detail="MultiwinnerRepeatedSelection: " + why, construct="mw-elections"))
+            trims = [c for c in body_walk(mw.node) if isinstance(c, ast.Call) and isinstance(c.func, ast.Attribute) and c.func.attr == "topk" and c.args and re.fullmatch(size, canon(c.args[0], mdefs))]
+            sl = [c for c in body_walk(mw.node) if isinstance(c, ast.Subscript) and isinstance(c.slice, ast.Slice) and c.slice.upper is not None and re.fullmatch(size, canon(c.slice.upper, mdefs))]
+            obs.append(ctx.ob("R12.4", mw, (trims + sl)[0] if trims or sl else mw.node, status=OK if trims or sl else INCONCLUSIVE, detail="MultiwinnerRepeatedSelection: surplus winners are trimmed to the input's size" if trims or sl else "MultiwinnerRepeatedSelection: no trim of the merged winners to the input's size was found", construct="mw-trim"))
     return obs
 
 
